@@ -284,3 +284,94 @@ def r05_5(cx):
     if n == 0:
         why = why or 'no pattern path found'
     cx.report('R05.5', b, 'add-before-pruning', why is None, 'every pattern whose length is recorded is also handed to the prefilter builder, pruned or not (unless the prefilter option is off)' if why is None else why)
+
+
+def r16_2_shuffle(cx):
+    """shuffle: match states are swapped to the front, the start states behind them, special ids read off the final layout"""
+    from acverif.sym import summarize
+    b = cx.body(COMP + 'shuffle')
+    rows = [r for r in summarize(cx.facts, b) if r.end == 'return']
+    why = None if rows else 'no path returns'
+    H = L = None
+    for r in rows:
+        st = {}
+        for p, v in r.stores():
+            st[cstr(p)] = v
+        sa, su, mm = (st.get('self.nfa.special.' + f) for f in ('start_anchored_id', 'start_unanchored_id', 'max_match_id'))
+        if sa is None or su is None or mm is None:
+            why = 'not all of start_anchored_id / start_unanchored_id / max_match_id are assigned'
+            break
+        ph = {(s[1], s[2]) for s in subterms(sa) if s[0] == 'phi'}
+        if len(ph) != 1:
+            why = 'start_anchored_id is not derived from the one cursor of the match-state loop'
+            break
+        (H, L), = ph
+        ent = [s[3] for s in subterms(sa) if s[0] == 'phi'][0]
+        try:
+            if teval(ent, lambda t: None) != 4:
+                why = 'the cursor of the match-state loop does not start at state 4 (behind DEAD, FAIL and the two start states)'
+                break
+            for n in (7, 12):
+                at = lambda t, n=n: n if (t[0] == 'phi' and t[1] == H and t[2] == L) else None
+                if teval(sa, at) != n - 1 or teval(su, at) != n - 2:
+                    why = 'start ids are assigned cursor-%d / cursor-%d (expected cursor-1 for the anchored and cursor-2 for the unanchored start)' % (n - teval(sa, at), n - teval(su, at))
+                    break
+                im = None
+                for c, v in r.conds:
+                    cc = canon(c)
+                    if is_call(cc, r'nfa::noncontiguous::State::is_match$') and c_state(cc[2][0]) is not None:
+                        try:
+                            if teval(c_state(cc[2][0]), at) == n - 1:
+                                im = v
+                        except (Unsupported, EvalPanic):
+                            pass
+                if im is None:
+                    why = 'max_match_id does not depend on whether the (new) anchored start state is a match state'
+                    break
+                if teval(mm, at) != (n - 1 if im else n - 3):
+                    why = 'max_match_id = cursor-%d when the anchored start %s a match state' % (n - teval(mm, at), 'is' if im else 'is not')
+                    break
+                ev = [e for e in r.effects if e[0] in ('call', 'loop')]
+                li = ev.index(('loop', H)) if ('loop', H) in ev else -1
+                after = [canon(e[1]) for e in ev[li + 1:] if e[0] == 'call']
+                sw = [c for c in after if is_call(c, r'Remapper::swap$')]
+                rm = [i for i, c in enumerate(after) if is_call(c, r'Remapper::remap$')]
+                si = [i for i, c in enumerate(after) if is_call(c, r'Remapper::swap$')]
+                if len(sw) != 2 or cstr(sw[0][2][2]) != 'self.nfa.special.start_anchored_id' or teval(sw[0][2][3], at) != n - 1 or cstr(sw[1][2][2]) != START or teval(sw[1][2][3], at) != n - 2:
+                    why = 'the start states are not swapped to cursor-1 (anchored, first) and cursor-2 (unanchored)'
+                    break
+                if len(rm) != 1 or rm[0] < max(si) or any(is_call(c, r'Remapper::') for c in after[rm[0] + 1:]):
+                    why = 'remap() is not the single last remapper operation after all swaps'
+                    break
+        except (Unsupported, EvalPanic) as e:
+            why = 'cannot evaluate: %s' % e
+        if why:
+            break
+    if why is None:
+        NA0 = Sym(cx.facts, b).default_local(L)
+        body = [r for r in loop_rows(cx.facts, b, H) if r.end == ('stop', H)]
+        if not body:
+            why = 'the match-state loop never iterates'
+        for r in body:
+            nx = [c[1] for c, v in r.conds if c[0] == 'discr' and is_call(c[1], r'Iterator::next$') and v == 1]
+            if not nx:
+                continue
+            SID = cstr(('f', ('dc', ('call', 'util::primitives::StateID::new', [('f', ('dc', nx[0], 'Some'), '0')], None), 'Ok'), '0'))
+            im = r.cond(lambda c: is_call(canon(c), r'nfa::noncontiguous::State::is_match$') and c_state(canon(c)[2][0]) is not None and cstr(c_state(canon(c)[2][0])) == SID)
+            sw = [canon(c) for c in r.calls(r'Remapper::swap$')]
+            try:
+                new = teval(r.env.get(L, NA0), lambda t: 9 if t == NA0 else None)
+            except (Unsupported, EvalPanic) as e:
+                why = 'cannot evaluate the cursor update: %s' % e
+                break
+            if im is True:
+                if len(sw) != 1 or cstr(sw[0][2][2]) != SID or cstr(sw[0][2][3]) != cstr(NA0) or new != 10:
+                    why = 'a match state is not swapped to the cursor with the cursor advancing by one'
+            elif im is False:
+                if sw or new != 9:
+                    why = 'a non-match state is swapped or moves the cursor'
+            else:
+                why = 'an iteration does not depend on states[sid].is_match()'
+            if why:
+                break
+    cx.report('R16.2', b, 'layout', why is None, 'match states are swapped to 4.. in order, then start_anchored = cursor-1, start_unanchored = cursor-2, max_match = cursor-3 (or the anchored start if it matches); one remap after all swaps (evaluated symbolically)' if why is None else 'shuffle: ' + why)
